@@ -119,6 +119,14 @@ func c03Run(c *mon.Ctx, unit int) {
 			c.Violate("legal", c03Case{sp, ""}, "accept", built.check.String(), "Check refuses a schema that is legal by construction (allOf / array-union / key-diamond motif)")
 			continue
 		}
+		if code := built.check.Code; !built.ok && built.check.Panic == "" && (code == 104 || code == 703 || code == 1302) {
+			// refused for a reason the reference recursion / resolution oracle decides: a graph it
+			// accepts (all names resolve, every required cycle can end) is refused wrongly
+			if v, _ := model.RecursionVerdict(s); v == model.Accept {
+				c.Violate("legal", c03Case{sp, ""}, "accept", built.check.String(), "Check reports a recursion / a missing type in a graph whose names all resolve and whose required references all end")
+				continue
+			}
+		}
 		if !built.ok {
 			c.Count("generated graph rejected by Check (skipped)", 1)
 			c.Count(fmt.Sprintf("skipped: check code %d", built.check.Code), 1)
